@@ -168,6 +168,21 @@ class Gen:
         ver = r.choice([0, 1, 2, -1, 32767, -32768]) if r.chance(1, 2) else r.bits(15)
         return Rec((h, ver, self.bytes_(12), self.bytes_(9), self.bytes_(9), self.bytes_(16), self.u32(), self.i32(), nonce))
 
+    def altblock(self):
+        r = self.r
+        a = self.c["ALT_HASH_SIZE"]
+        hl = a + 1 if self.over and r.chance(1, 4) else a
+        return Rec((self.bytes_(hl), self.bytes_(r.choice([0, 1, a - 1, a]) if r.chance(1, 2) else r.below(a + 1)), self.i32(), self.u32()))
+
+    def keystones(self):
+        return Rec((self.bytes_(self.blen(255, 40)), self.bytes_(self.blen(255, 40))))
+
+    def ctxinfo(self):
+        return Rec((self.i32(), self.keystones()))
+
+    def authctx(self):
+        return Rec((self.ctxinfo(), self.bytes_(32)))
+
     def layers(self):
         r = self.r
         n = r.choice([0, 1, 2, 39, 40]) if r.chance(1, 3) else r.below(6)
@@ -234,7 +249,7 @@ class Gen:
         return getattr(self, t)()
 
 
-TYPES = ["address", "coin", "output", "btctx", "btcblock", "vbkblock", "merklepath", "vbkmerklepath", "pubdata",
+TYPES = ["address", "coin", "output", "btctx", "btcblock", "vbkblock", "altblock", "keystones", "ctxinfo", "authctx", "merklepath", "vbkmerklepath", "pubdata",
          "vbktx", "vbkpoptx", "atv", "vtb", "popdata"]
 CHECKED = ["atv", "vtb", "popdata", "vbkblock", "btcblock"]
 
@@ -332,6 +347,18 @@ class Enc:
     def vbkblock(self, b):
         return self.sbl(self.vbkblock_raw(b), "hdr")
 
+    def altblock(self, b):
+        return self.sbl(b[0], "althash") + self.sbl(b[1], "althash") + (b[2] & 0xffffffff).to_bytes(4, "big") + b[3].to_bytes(4, "big")
+
+    def keystones(self, k):
+        return self.sbl(k[0], "keystone") + self.sbl(k[1], "keystone")
+
+    def ctxinfo(self, c):
+        return (c[0] & 0xffffffff).to_bytes(4, "big") + self.keystones(c[1])
+
+    def authctx(self, c):
+        return self.ctxinfo(c[0]) + c[1]
+
     def merklepath(self, m):
         raw = self.fixed32(m[0]) + self.fixed32(len(m[1]), "nlayers") + self.fixed32(4, "sizeofsize") + \
             (32).to_bytes(4, "big") + b"".join(self.sbl(l, "layer") for l in m[1])
@@ -376,7 +403,7 @@ def py_encode(c, t, v, plan=None):
 
 FIELD_LIMITS = {"count": [50000, 65535], "nlayers": [40], "pub": [1024, 10000], "nested": [21036, 5500000],
                 "btctx": [4000000], "sizeofsize": [4], "hdr": [80, 65], "layer": [32], "subject": [32], "sig": [72], "key": [88],
-                "addr": [30], "noutputs": [255], "sbl": [255], "var": [255]}
+                "addr": [30], "althash": [32], "keystone": [255], "noutputs": [255], "sbl": [255], "var": [255]}
 
 
 def hostile_variants(r, c, t, v, k):
